@@ -62,7 +62,7 @@ def cases(ctx):
             a, b = rng.sample(range(1, nq), 2) if nq >= 3 else (1, 2)
             prog += [["set", [["Q", 0], a]], ["set", [["Q", 1], b]], [rng.choice(["cnot", "cphase"]), [["Q", 0], ["Q", 1]]]]
         yield {"kind": "direct", "nq": nq, "prog": prog, "debug": False, "load": False, "loaded_two_qubit": False,
-               "script": [rng.randrange(2) for _ in range(8)]}
+               "script": [rng.randrange(2) for _ in range(8)], "share": rng.random() < 0.5}
     for _ in range(ctx.n(40, 3000)):
         # a subroutine whose first instruction is a loop head (branch target 0); counters come from an earlier subroutine
         nq = rng.choice([2, 3])
@@ -174,7 +174,7 @@ def cases(ctx):
                            ["h", [["Q", 1]]]]
                     for prog in (loop, fwd):
                         yield {"kind": "direct", "nq": nq, "seed_prog": seed, "prog": prog, "debug": False, "load": False, "seam": True,
-                               "loaded_two_qubit": False, "script": [0] * 8}
+                               "loaded_two_qubit": False, "script": [0] * 8, "share": g1 == g2}
     for _ in range(ctx.n(20, 1500)):
         # a program that names all sixteen Q registers and has a carbon-carbon gate inside a loop: nothing is left to borrow for the
         # electron - the transpiler may refuse, it may not quietly take a register that is read again after the back-edge
@@ -255,10 +255,25 @@ def transpile_and_monitor(sub, debug):
     from netqasm.lang.instr.base import DebugInstruction
     from netqasm.sdk.transpile import NVSubroutineTranspiler
     old = list(sub.instructions)
-    old_targets = {id(i): branch_target(i) for i in old if branch_target(i) is not None}
+    old_br = [(t, branch_target(i), type(i)) for t, i in enumerate(old) if branch_target(i) is not None]
+    shared_objects = len({id(i) for i in old}) != len(old)
     new_sub = NVSubroutineTranspiler(sub, debug=debug).transpile()
     new = list(new_sub.instructions)      # in memory the debug comments occupy positions (and branch targets count them)
+    if shared_objects:
+        # one object listed at several positions: identity cannot anchor the structural monitor; the differential execution decides
+        if debug:
+            from netqasm.lang.parsing import deserialize
+            new_sub = deserialize(bytes(new_sub), flavour=codec.flavour_obj("nv"))
+        return new_sub, None, {"branches": 0, "expanded": len(new) > len(old)}
     pos = {id(x): k for k, x in enumerate(new)}
+    # branch instructions may come back as re-targeted copies: the j-th branch of the source is the j-th branch of the result
+    new_br = [k for k, x in enumerate(new) if branch_target(x) is not None]
+    if len(new_br) != len(old_br) or any(type(new[k]) is not ty for k, (_, _, ty) in zip(new_br, old_br)):
+        return new_sub, f"the source has branch instructions {[(t, ty.__name__) for t, _, ty in old_br]}, the result has {[(k, type(new[k]).__name__) for k in new_br]}", {}
+    old_targets = {}
+    for k, (t, tgt, _) in zip(new_br, old_br):
+        pos[id(old[t])] = k
+        old_targets[id(new[k])] = tgt
     # non-gate instructions keep identity and order
     last = -1
     missing = 0
@@ -405,6 +420,18 @@ def _direct(ctx, case):
     key = KF if case.get("loaded_two_qubit") else KF_TEXT_ORDER if case.get("set_below") else None
     sub_v = codec.mk_subroutine("vanilla", [0, 10], 0, case["prog"])
     sub_n = codec.mk_subroutine("vanilla", [0, 10], 0, case["prog"])
+    if case.get("share"):
+        # a program assembled from parts (prologue + block * 2): an instruction that occurs twice is ONE object listed twice
+        import json as _json
+        for sub_ in (sub_v, sub_n):
+            first = {}
+            for i_, ins_ in enumerate(sub_.instructions):
+                k_ = _json.dumps(codec.describe_instr(ins_))
+                if k_ in first:
+                    sub_.instructions[i_] = sub_.instructions[first[k_]]
+                    ctx.count("instruction_objects_listed_twice")
+                else:
+                    first[k_] = i_
     names = named_registers(sub_v.instructions)
     try:
         sub_n, merr, stats = transpile_and_monitor(sub_n, case["debug"])
